@@ -88,7 +88,7 @@ def _vf_flat(A, B):
     return f
 
 
-def _solve(case, vf, u0, *, jit=True, container=None, save_at=None, grid=None, tol=None):
+def _solve(case, vf, u0, *, jit=True, container=None, save_at=None, grid=None, tol=None, output_scale=None):
     """Build everything from (vf, u0) through the public API and solve; returns the solution."""
     import jax
     import jax.numpy as jnp
@@ -99,7 +99,7 @@ def _solve(case, vf, u0, *, jit=True, container=None, save_at=None, grid=None, t
     tc, _ = probdiffeq.jetexpand_ode_padded_scan(num=3)(ode, (u0,), t=0.0)
     if container is not None:
         tc = container(*tc)
-    prior = ssm.prior_wiener_integrated(tc)
+    prior = ssm.prior_wiener_integrated(tc) if output_scale is None else ssm.prior_wiener_integrated(tc, output_scale=output_scale)
     cst = ssm.constraint_ode_ts0(ode) if case["ts"] == "ts0" or case["fact"] != "dense" else ssm.constraint_ode_ts1(ode)
     adaptive = case["routine"] == "adaptive"
     strat = probdiffeq.strategy_filter() if case["strategy"] == "filter" else (
@@ -169,8 +169,18 @@ def run_case(case):
         def rav(x):
             return jax.flatten_util.ravel_pytree(x)[0]
 
-        sol_f = _solve(case, f, jnp.asarray(u0), save_at=save_at, grid=grid)
-        sol_p = _solve(case, lambda u, *, t: unravel(f(rav(u), t=t)), unravel(jnp.asarray(u0)), container=Taylor4, save_at=save_at, grid=grid)
+        # every other pytree case: user-supplied per-component base scales, given in the caller's structure (seed C15-s4 put
+        # them on the wrong rows for states with several leaves)
+        sc_f = sc_p = None
+        if case["seedm"] % 2 == 0:
+            svec = np.exp(r.uniform(np.log(0.05), np.log(20.0), size=d))
+            if fact == "isotropic":
+                sc_f = sc_p = jnp.asarray(float(svec[0]))
+            else:
+                sc_f, sc_p = jnp.asarray(svec), unravel(jnp.asarray(svec))
+            obs["pytree_custom_scale_cases"] = 1
+        sol_f = _solve(case, f, jnp.asarray(u0), save_at=save_at, grid=grid, output_scale=sc_f)
+        sol_p = _solve(case, lambda u, *, t: unravel(f(rav(u), t=t)), unravel(jnp.asarray(u0)), container=Taylor4, save_at=save_at, grid=grid, output_scale=sc_p)
         obs["pytree_pairs"] = 1
         mean_p, std_p = sol_p.u.mean, sol_p.u.std
         if not isinstance(mean_p, Taylor4) or not isinstance(std_p, Taylor4):
